@@ -57,4 +57,16 @@ theorem C15_every_order_of_a_sequence_fills_exactly (c : TokenCfg) (pre : List O
     fillSum fills = roundDec c.tradeExp r.amount :=
   C15_buy_market_fills_rounded_amount c _ s' r fills fee (C15_levels_never_overdrawn_in_a_bar c pre s hb).2 hp h
 
+
+/-! ### non-vacuity: the book of C15's examples satisfies the invariant; two market buys in a bar -/
+example : BookInv Deribit.exState.book := by
+  intro i hi
+  simp only [Deribit.exState, List.mem_singleton] at hi
+  subst hi
+  refine ⟨⟨by unfold PricesNodup; decide +kernel, ?_⟩, ⟨by unfold PricesNodup; decide +kernel, ?_⟩⟩ <;>
+    (intro l hl; simp only [Deribit.exInstr, List.mem_cons, List.not_mem_nil, or_false] at hl; rcases hl with rfl | rfl | rfl <;> norm_num)
+example : ((runOps DCtx.exact ethCfg Deribit.exState
+      [.buy (Deribit.exReq (19 / 2) none), .buy (Deribit.exReq 601 none)]).book.map (fun i => i.asks.map (·.size))) = [[0, 0, 196]] := by
+  decide +kernel
+
 end Demeter
